@@ -1,6 +1,7 @@
 """C03 - configuration parsing is total: every text yields a config or a diagnostic.
 
-Level: exploration (TLC-enumerated mutations + grammar sweep + byte mutations executed on the real
+Level: exploration (TLC-enumerated mutations + grammar sweep + name-resolution graphs (variables, aliases,
+templates) + capacity boundaries + byte mutations executed on the real
 parser in watched worker subprocesses), with a model-checked sub-claim for the lexer / list builder
 (spec/Lexer.tla: machine over all inputs up to N bytes, pure function on all strings up to L symbols,
 exact conformance with the real sexpr::parse on all strings up to 5 symbols)."""
@@ -662,14 +663,21 @@ def run(tier, seed):
                 "simulation tests, parser/test_cfgs) as is; ALL single structure-aware mutations at ALL sites of the selected seeds and "
                 "pairs of mutations on the smallest seeds, enumerated by TLC from spec/CfgMutate.tla (delete, duplicate, swap, splice, "
                 "wrap/unwrap, atom->(), number->boundary, name->unknown, name->self-referential definition, list arity 0..n+1); the "
-                "vocabulary x argument-list sweep of spec/CfgGrammar.tla; byte-level mutations (truncate, bit flip, multi-byte insert, "
+                "vocabulary x argument-list sweep of spec/CfgGrammar.tla; the name-resolution graphs of spec/CfgRefs.tla (defvar / "
+                "defalias) and spec/CfgTemplates.tla (deftemplate bodies that expand ti through template-expand and through t!, self / "
+                "mutual / forward references, nested, used or unused); the capacity boundaries of spec/CfgCaps.tla (every documented or "
+                "announced capacity at L-1, L, L+1, L+2 in every shape that reaches it: switch opcode list with 1- and 2-opcode last "
+                "items and nested lists closing at the end, switch depth, key-recency, chord-group keys, virtual keys, O-(..) lists, "
+                "local key codes, defsrc size, distances, list widths 255 / 4095; thorough: layers, chord groups, widths 65535); byte-level mutations (truncate, bit flip, multi-byte insert, "
                 "unterminated string/comment openers, slice delete/duplicate, control characters) of every seed and of included files; "
                 "a sample re-run as an included file and through new_from_file with on-disk include sets. Each text is loaded by "
                 "new_from_str/new_from_file and its diagnostic rendered (Debug of the miette report + graphical handler) in a worker "
                 "subprocess (8 MiB stack, catch_unwind, per-text watchdog, address-space limit). evaluations = distinct (text, file set) "
                 "pairs executed; distinct_nontrivial = those that got beyond the reader (outcome ok, a diagnostic other than the six "
                 "lexer/list-builder errors, or a crash). A violation is a panic / abort / stack overflow / watchdog timeout / a "
-                "diagnostic location outside the file it names (CfgOutcome!Allowed, evaluated by TLC on every distinct outcome).",
+                "diagnostic location outside the file it names (CfgOutcome!Allowed, evaluated by TLC on every distinct outcome). The "
+                "signature of a hang / stack overflow names the parser entry AND the input class (for templates: recursion written in a "
+                "deftemplate body | expansion call produced by parameter substitution), a known finding covers only its own class.",
         "samples": samples,
         "generated_before_dedup": sum(cases.generated.values()),
         "by_generator": dict(bykind.most_common()),
@@ -696,7 +704,10 @@ def run(tier, seed):
                                    "a text that needs more than the watchdog (%d ms) to load counts as non-terminating" % to_ms,
                                    "stack of 8 MiB as for the main thread of the shipped binary",
                                    "the parser entry of a stack overflow / hang is inferred from the text (the process is gone)",
-                                   "lexer model: 12-symbol alphabet (one 2-byte character); longer multi-byte characters only through the byte-level mutations"])
+                                   "lexer model: 12-symbol alphabet (one 2-byte character); longer multi-byte characters only through the byte-level mutations",
+                                   "capacity boundaries: options of other platforms (windows-interception hardware ids, limit 1024) are only read over by "
+                                   "this Linux build; the very large boundary texts (60000 layers, 65536 chord groups, 65535-item lists) run in the "
+                                   "thorough tier only, with a %d ms watchdog" % HEAVY_MS])
     log("[c03] %d texts, outcomes %s, %d clusters, %.0fs" % (len(results), dict(outcomes), len(clusters), time.time() - t0))
     return 1 if res.violations else 0
 
